@@ -95,3 +95,33 @@ func canonicalNumber(num slip.Object) slip.Object {
 	}
 	return num
 }
+
+// normalizeDivision normalizes the number and divisor of floor, ceiling,
+// truncate, and round to the same type. A division-by-zero error is
+// raised if the divisor is an integer or ratio zero. The most negative
+// fixnum can not be negated nor divided by -1 so if either argument is that
+// value bignums are returned instead of fixnums.
+func normalizeDivision(s *slip.Scope, depth int, f slip.Object, args slip.List) (num, div slip.Object) {
+	div = slip.Fixnum(1)
+	if 1 < len(args) {
+		div = args[1]
+	}
+	num, div = slip.NormalizeNumber(args[0], div)
+	var zero bool
+	switch td := div.(type) {
+	case slip.Fixnum:
+		zero = td == 0
+		if tn := num.(slip.Fixnum); !zero && (tn == math.MinInt64 || td == math.MinInt64) {
+			num = (*slip.Bignum)(big.NewInt(int64(tn)))
+			div = (*slip.Bignum)(big.NewInt(int64(td)))
+		}
+	case *slip.Bignum:
+		zero = (*big.Int)(td).Sign() == 0
+	case *slip.Ratio:
+		zero = (*big.Rat)(td).Sign() == 0
+	}
+	if zero {
+		slip.DivisionByZeroPanic(s, depth, f, args, "divide by zero")
+	}
+	return
+}
